@@ -162,6 +162,41 @@ theorem cfgLookup_baseCfg (env : String → Option String) (s : Setting) (hs : s
   rw [this settings hs]; rfl
 
 
+/-- no `--pika:ini` definition of a key in cfgmap means none in the ini tree either -/
+theorem lastIni_none_of_cfgGet_none (inis : List String) (k : String)
+    (h : cfgGet inis k = none) : lastIni inis k = none := by
+  induction inis with
+  | nil => rfl
+  | cons s rest ih =>
+    unfold cfgGet at h
+    simp only [List.filterMap_cons] at h
+    cases hs : splitIni s with
+    | none =>
+      simp only [hs] at h
+      simp only [lastIni, hs]
+      rw [ih (by unfold cfgGet; exact h)]
+    | some kv =>
+      obtain ⟨k0, v⟩ := kv
+      simp only [hs, List.findSome?_cons] at h
+      by_cases hk : (stripBang k0).1 == k
+      · simp [hk] at h
+      · simp only [hk] at h
+        simp only [lastIni, hs, hk]
+        rw [ih (by unfold cfgGet; exact h)]
+        simp
+
+/-- in both passes of `handle_arguments` the rtcfg_ entry of a key without `--pika:ini`
+    definition is the environment / default value -/
+theorem rt_second (vm : Vm) (k : String) (h : cfgGet (vm.multi "pika:ini") k = none) :
+    vm.second.rt k = rtGet vm.env k := by
+  simp [Vm.second, rtFinal, lastIni_none_of_cfgGet_none _ _ h]
+
+theorem second_opt (vm : Vm) : vm.second.opt = vm.opt := rfl
+theorem second_multi (vm : Vm) : vm.second.multi = vm.multi := rfl
+theorem second_env (vm : Vm) : vm.second.env = vm.env := rfl
+theorem mkVm_rt (occ env : List (String × String)) (k : String) :
+    (mkVm occ env).rt k = rtGet (mkVm occ env).env k := rfl
+
 /-! ## inversion of the stages -/
 
 theorem handleArguments_ok {m : Machine} {vm : Vm} {r : Resolved} (h : handleArguments m vm = .ok r) :
@@ -194,16 +229,17 @@ theorem handleHp_ok {vm : Vm} {r0 r : Resolved} (h : handleHp vm r0 = .ok r) :
 
 theorem configure_ok {m : Machine} {vm : Vm} {r : Resolved} {cfg : List (String × String)}
     (h : configure m vm = .ok (r, cfg)) :
-    ∃ r0 cfg0, handleArguments m vm = .ok r0 ∧
+    ∃ r1 r0 cfg0, handleArguments m vm = .ok r1 ∧
       applyInis (baseCfg vm.env) (vm.multi "pika:ini") = .ok cfg0 ∧
+      handleArguments m vm.second = .ok r0 ∧
       handleHp vm r0 = .ok r ∧ cfg = writeBack cfg0 r := by
   unfold configure at h
   simp only [bind_ok, pure_ok] at h
-  obtain ⟨r0, h0, cfg0, h1, r1, h2, h3⟩ := h
+  obtain ⟨r1, h0, cfg0, h1, r0, h0', r2, h2, h3⟩ := h
   simp only [Prod.mk.injEq] at h3
   obtain ⟨h3, h4⟩ := h3
   subst h3
-  exact ⟨r0, cfg0, h0, h1, h2, h4.symm⟩
+  exact ⟨r1, r0, cfg0, h0, h1, h0', h2, h4.symm⟩
 
 theorem startStage_ok {m : Machine} {pre argv : List String} {p : Parsed} {r : Resolved}
     {cfg : List (String × String)} {rep : Report} (h : startStage m pre argv p r cfg = .ok rep) :
